@@ -11,7 +11,7 @@ from ..contexts import AST, Ctx
 from ..contexts.cst import cstmerge
 from ..exceptions import FailedParse, FailedRef
 from ..objectmodel import nodedataclass
-from ..util import indent, trim, typename
+from ..util import indent, trim
 from .base import PEP8_LLEN, Box, Leaf, Model, Rule
 from .math import ffset, kdot, ref
 
@@ -130,12 +130,20 @@ class Optional(Box):
         return True
 
     def optimized(self) -> Self | Model:
-        from .closure import Closure, Gather, Join
+        from .closure import (
+            Closure,
+            Gather,
+            Join,
+            PositiveClosure,
+            PositiveGather,
+            PositiveJoin,
+        )
 
         exp = self.exp.optimized()
         if (
             isinstance(exp, Optional | Closure | Join | Gather)
-            and 'Positive' not in typename(exp)
+            # note: left and right joins are positive joins by another name
+            and not isinstance(exp, PositiveClosure | PositiveJoin | PositiveGather)
             and not _contains_cut(exp)
             and not (exp.defines_single or exp.defines_list)
         ):
